@@ -520,6 +520,15 @@ def replay_probe_if_requested(repo):
 def translate(repo, lean):
     """emit Ruint/Gen/GuardGraph.lean: the mentions graph and the list of public producers"""
     replay_probe_if_requested(repo)
+    import gentie
+    words = gentie.gen_words(repo, lean)   # `mask` / `nlimbs` regenerated from src/lib.rs (Gen/Words.lean)
+    info = _translate_guard_graph(repo, lean)
+    info['words'] = words
+    info['changed'] = bool(info.get('changed')) or bool(words.get('changed'))
+    return info
+
+
+def _translate_guard_graph(repo, lean):
     edges, missing, unresolved = extract_graph(repo)
     # a producer that does not reach the assertion but whose body (or a body it reaches) contains a reference the extractor
     # cannot resolve (e.g. a renamed helper) is reported as "tie unavailable" and left to the compile probes — never an alarm
